@@ -63,7 +63,24 @@ def build_argv(spec, settings_dir):
     return argv
 
 
-def run_forked(M, argv, cwd, report_path, stdio_path, before_run=None, timeout=120, umask=0o022, env=None):
+def _plain(o):
+    """numpy scalars and other odd values inside a monitor's report"""
+    try:
+        import numpy
+        if isinstance(o, numpy.integer):
+            return int(o)
+        if isinstance(o, numpy.floating):
+            return float(o)
+        if isinstance(o, numpy.ndarray):
+            return o.tolist()
+    except Exception:  # noqa
+        pass
+    if isinstance(o, (set, frozenset, tuple)):
+        return sorted(o, key=repr)
+    return repr(o)
+
+
+def run_forked(M, argv, cwd, report_path, stdio_path, before_run=None, timeout=120, umask=0o022, env=None, second_argv=None):
     """-> outcome dict {status, wall, report(optional)}.  before_run(M) runs in the child right before Lian().run()
     and may return a finaliser that produces the JSON-able report."""
     pid = os.fork()
@@ -98,18 +115,31 @@ def run_forked(M, argv, cwd, report_path, stdio_path, before_run=None, timeout=1
                 status = f"exc:{type(e).__name__}"
                 detail = f"{str(e)[:200]} @ {os.path.basename(frame.filename)}:{frame.name}" if frame else str(e)[:200]
                 tb_text = " <- ".join(f"{os.path.basename(f.filename)}:{f.lineno}:{f.name}" for f in reversed(tb[-8:]))
+            status2 = None
+            if second_argv and status == "ok":
+                # a second analysis in the SAME interpreter (what a service or a notebook embedding lian does)
+                sys.argv = list(second_argv)
+                try:
+                    M.Lian().run()
+                    status2 = "ok"
+                except SystemExit as e:
+                    status2 = f"exit:{e.code}"
+                except BaseException as e:  # noqa
+                    status2 = f"exc:{type(e).__name__}: {str(e)[:160]}"
             try:
                 sys.stdout.flush()
                 sys.stderr.flush()
             except Exception:  # noqa
                 pass
             rep = {"status": status, "detail": detail, "tb": tb_text}
+            if status2 is not None:
+                rep["status2"] = status2
             os.environ["LIAN_SIM_RUN_STATUS"] = status
             if fin:
                 rep["report"] = fin()
             tmp = report_path + ".tmp"
             with open(tmp, "w") as f:
-                json.dump(rep, f)
+                json.dump(rep, f, default=_plain)
             os.replace(tmp, report_path)
             code = 0
         except BaseException:  # noqa
